@@ -14,7 +14,9 @@ numbering.  `order ps` is the processing order; `Off` are the offsets `merge_mol
 processing order, of what each placement contributes at its offsets.
 
 The matcher is not part of these theorems (it is a reference, `refMatches` = `Iso.allIsosP`,
-see `placements_exact`); modification mappings are not modelled.
+see `placements_exact`).  Modification mappings: last section of this file (step theorems) and
+`VermouthProps/C01_Events.lean` (closed forms); attributes of the particles for any
+keep / must / stash tuples: `VermouthProps/C01_Attr.lean`, `C01_ModAttr.lean`, `C01_AttrLink.lean`.
 -/
 namespace C01
 open C12
